@@ -1,5 +1,6 @@
 import Morlock.Proofs.ABNode
 import Morlock.Proofs.ABFuel
+import Morlock.Proofs.ABChessTree
 /-!
 # C13 — alpha-beta and quiescence only ever clip the true minimax value
 
@@ -23,7 +24,11 @@ Reference values (defined in `Morlock/Proofs/ABRef.lean`, no window / table / or
   convention:** the clip theorems hold for *every* fuel against the reference cut off at the same fuel, with
   no side condition; `enough_fuel` adds that under the explicit fuel bound `QDone g ex fuel p` (all explored
   lines from `p` end in fewer than `fuel` plies) the reference no longer depends on the fuel and
-  `Model.quiesce` leaves `fuelOut` untouched.
+  `Model.quiesce` leaves `fuelOut` untouched. **On the chess game the fuel is immaterial** (`chess_enough_fuel`,
+  `chess_V_fuel_irrelevant`): the Go code has no fuel; for every exploration that picks only captures (the driver's
+  quiescence exploration) every explored move removes a man, so at every world reached by legal play
+  (`Inv`, `Morlock/Proofs/ABChessFuel.lean`) `QDone … 64` holds, `Q` and `V` are the same for every fuel `≥ 64`, and
+  `quiesce` with fuel 64 never runs out of fuel.
 
 `Clip a b v r` (in `rank` space): `a < v < b → r = v`, `v ≤ a → v ≤ r ≤ a`, `b ≤ v → b ≤ r ≤ v`.
 
@@ -209,5 +214,90 @@ example : QDone tiny allMoves 3 0 := by
   simp only [tiny] at hpush''
   split at hpush'' <;> simp at hpush''
   omega
+
+/-! ## The chess game: the hypotheses hold, the fuel is immaterial -/
+
+/-- `EvalOk` holds for the chess game with the material evaluation (for every world, also junk ones). -/
+theorem chess_evalOk (z : ZTable) : EvalOk (materialGame z) := materialGame_evalOk z
+
+/-- **C13 (enough fuel on the chess game).** For every Zobrist table, evaluation and exploration `ex` that picks
+    only captures (`CapturesOnly ex`; the driver's `capturesOnly`), at every world `w` satisfying the play
+    invariant `Inv` (arena well formed, board 0 exists, its position satisfies C01's `WFplay`; it holds for
+    `newBoard` on a `WFplay` position and is preserved by `pushMove` of generated moves: `inv_newBoard`,
+    `inv_push`): the explored quiescence tree is exhausted within 64 plies, the reference `Q` is the same for every
+    fuel `≥ 64`, and `quiesce` with fuel 64 does not report `fuelOut`. -/
+theorem chess_enough_fuel (z : ZTable) (ev : Position → Model.Color → Int) (ex : Explore) (hex : CapturesOnly ex)
+    (w : World) (h : Inv w) :
+    QDone (boardGame z ev) ex 64 w ∧
+    (∀ fuel', 64 ≤ fuel' → Q (boardGame z ev) ex fuel' w = Q (boardGame z ev) ex 64 w) ∧
+    ∀ a b st, (quiesce (boardGame z ev) ex 64 w a b st).2.fuelOut = st.fuelOut :=
+  ⟨boardGame_qdone z ev ex hex w h, (boardGame_enough_fuel z ev ex hex w h).1, (boardGame_enough_fuel z ev ex hex w h).2⟩
+
+/-- **C13 (the reference of the main search does not depend on the fuel on the chess game).** -/
+theorem chess_V_fuel_irrelevant (z : ZTable) (ev : Position → Model.Color → Int) (ex qx : Explore) (hq : CapturesOnly qx)
+    (rootPly : Int) (fuel : Nat) (hf : 64 ≤ fuel) (d : Nat) (w : World) (h : Inv w) :
+    V (boardGame z ev) ex (.quiescence qx fuel) rootPly d w = V (boardGame z ev) ex (.quiescence qx 64) rootPly d w :=
+  V_fuel_irrelevant z ev ex qx hq rootPly fuel hf d w h
+
+/-! ## Non-vacuity on the chess game (`gX = materialGame exZ`; `Morlock/Proofs/ABChessTree.lean`)
+
+`wE` = `r3k2r/1P6/8/3pP3/8/8/8/R3K2R w KQkq d6` (stand pat `+1`, quiescence value `+14`: `b7xa8=Q`), `wM` = Black is
+mated, `wT` = Black is stalemated, `capX` = the captures-only exploration. No table (`{}`), no cancellation. -/
+
+section Chess
+
+set_option maxRecDepth 100000 in
+-- `alphabeta_clip` / `alphabeta_any_window`: depth 3 with quiescence leaves (fuel 64), window (mated in 2, mate in 5)
+example : Clip (rank (mateInXScore (-2))) (rank (mateInXScore 5))
+      (rank (V gX fullExploration (.quiescence capX 64) 1 3 wE))
+      (rank (alphabeta gX fullExploration (.quiescence capX 64) 1 3 wE (mateInXScore (-2)) (mateInXScore 5) {}).1) ∧
+    Path gX fullExploration 3 wE
+      (alphabeta gX fullExploration (.quiescence capX 64) 1 3 wE (mateInXScore (-2)) (mateInXScore 5) {}).2.1 :=
+  ⟨alphabeta_clip gX fullExploration (.quiescence capX 64) 1 gX_evalOk 64 3 (Nat.le_refl _) (by decide) wE (mateInXScore (-2)) (mateInXScore 5) {} rfl rfl
+      (by decide) (by decide) (by decide),
+   (alphabeta_any_window gX fullExploration (.quiescence capX 64) 1 gX_evalOk 64 3 (Nat.le_refl _) (by decide) wE (mateInXScore (-2)) (mateInXScore 5) {} rfl rfl
+      (by decide) (by decide)).2.2.1⟩
+
+-- `quiescence_clip` / `quiescence_any_window`: window (-5 pawns-keys, +5)
+example : Clip (rank (heuristicScore (-5))) (rank (heuristicScore 5)) (rank (Q gX capX 64 wE))
+      (rank (quiesce gX capX 64 wE (heuristicScore (-5)) (heuristicScore 5) {}).1) ∧
+    okN 64 (quiesce gX capX 64 wE (heuristicScore (-5)) (heuristicScore 5) {}).1 :=
+  ⟨quiescence_clip gX capX gX_evalOk 0 64 (by decide) wE (heuristicScore (-5)) (heuristicScore 5) {} rfl rfl (by decide) (by decide) (by decide),
+   (quiescence_any_window gX capX gX_evalOk 0 64 (by decide) wE (heuristicScore (-5)) (heuristicScore 5) {} rfl rfl (by decide) (by decide)).1⟩
+
+-- `standpat`: `wE` is not drawn and has a legal move
+example : rank (heuristicScore (gX.eval wE)) ≤ rank (Q gX capX 64 wE) ∧
+    rank (heuristicScore (gX.eval wE)) ≤ rank (quiesce gX capX 64 wE (heuristicScore (-5)) (heuristicScore 5) {}).1 :=
+  have h := standpat gX capX gX_evalOk 0 63 (by decide) wE wE_notDraw wE_legal
+  ⟨h.1, (h.2 (heuristicScore (-5)) (heuristicScore 5) {} rfl rfl (by decide) (by decide)).1⟩
+
+-- `quiescence_terminal`: mate and stalemate
+example : Q gX capX 64 wM = negInfScore ∧
+    (quiesce gX capX 64 wM (heuristicScore (-5)) (heuristicScore 5) {}).1 = negInfScore ∧
+    Q gX capX 64 wT = zeroScore ∧
+    (quiesce gX capX 64 wT (heuristicScore (-5)) (heuristicScore 5) {}).1 = zeroScore := by
+  have hM := quiescence_terminal gX capX gX_evalOk 0 63 (by decide) wM wM_facts.1 wM_facts.2.1
+  have hT := quiescence_terminal gX capX gX_evalOk 0 63 (by decide) wT wT_facts.1 wT_facts.2.1
+  rw [wM_facts.2.2.1] at hM
+  rw [wT_facts.2.2.1] at hT
+  exact ⟨hM.1, hM.2 (heuristicScore (-5)) (heuristicScore 5) {} rfl rfl (by decide) (by decide), hT.1, hT.2 (heuristicScore (-5)) (heuristicScore 5) {} rfl rfl (by decide) (by decide)⟩
+
+set_option maxRecDepth 100000 in
+-- `enough_fuel` with `boardGame_qdone` (`chess_enough_fuel`) on `wE`; and the quiescence search there is not trivial:
+-- stand pat is `+1` (`0x3F800000`), the quiescence value `+14` (`0x41600000`)
+example : (∀ fuel', 64 ≤ fuel' → Q gX capX fuel' wE = Q gX capX 64 wE) ∧
+    ∀ a b st, (quiesce gX capX 64 wE a b st).2.fuelOut = st.fuelOut :=
+  enough_fuel gX capX 64 wE (boardGame_qdone Proofs.exZ (fun pos turn => f32keyOfInt (materialPawns pos turn)) capX capX_capturesOnly wE wE_inv)
+
+set_option maxRecDepth 100000 in
+example : heuristicScore (gX.eval wE) = heuristicScore 1065353216 ∧ Q gX capX 3 wE = heuristicScore 1096810496 := by
+  decide +kernel
+
+set_option maxRecDepth 100000 in
+example (fuel : Nat) (hf : 64 ≤ fuel) (d : Nat) :
+    V gX fullExploration (.quiescence capX fuel) 1 d wE = V gX fullExploration (.quiescence capX 64) 1 d wE :=
+  chess_V_fuel_irrelevant Proofs.exZ (fun pos turn => f32keyOfInt (materialPawns pos turn)) fullExploration capX capX_capturesOnly 1 fuel hf d wE wE_inv
+
+end Chess
 
 end Morlock.Props.C13
